@@ -746,7 +746,7 @@ def assumptions():
         'by a finite-universe measure on the unmarked identifiers)',
         'get_cables / get_wires with selection ALL (cross-hierarchy closure): specified as the closure of wire_adj from the wires at the pins '
         'the root leads to and proved exact for one root of any kind (C13_get_wires_all, C13_get_cables_all, C13_get_cables_all_candidates); '
-        'for a collection of roots under ALL: soundness (C13_get_wires_all_sound) and the enumeration-independent clauses; compared with the '
+        'and for any collection of roots (C13_get_wires_all_roots, C13_get_cables_all_roots(_candidates)); compared with the '
         'implementation on every run',
         'the five hierarchical queries: the candidate enumeration is the hier engine\'s (C11/C12); here the filter law over the references found '
         '(C13_hier_filters_unfiltered), tied by the stage request H over roots of every kind and every selection, and by the oracle',
